@@ -607,6 +607,7 @@ pub fn run_c17(ctx: &Ctx) -> Outcome {
             vs.add(x);
         }
         crate::fill::sweep(&mut out, &mut vs, ctx.tier.is_quick(), "C17");
+        crate::c15::goaway_surfacing_for_c17(ctx, &mut out, &mut vs);
         out.violations = vs.into_vec();
     }
     out
@@ -625,7 +626,7 @@ fn run_c17_main(ctx: &Ctx) -> Outcome {
     for b in bad.into_iter().take(5) {
         out.violations.push(b);
     }
-    out.set("rule", json!("X1 on T1: for every reset / drop scenario all executions with <= k deviations; per stream and sender at most one RST_STREAM ever, exactly one when the application reset or abandoned a stream that had not closed cleanly (unless the peer's RST_STREAM or the end of the connection came first), the caller's code (CANCEL for a drop), RST after the stream's HEADERS, nothing of the stream after it, other streams complete, the peer's handles report origin remote / kind reset / the exact code. X3: error codes through RST_STREAM and GOAWAY encode -> bytes -> parse -> h2::Error::reason()"));
+    out.set("rule", json!("X1 on T1: for every reset / drop scenario all executions with <= k deviations; per stream and sender at most one RST_STREAM ever, exactly one when the application reset or abandoned a stream that had not closed cleanly (unless the peer's RST_STREAM or the end of the connection came first), the caller's code (CANCEL for a drop), RST after the stream's HEADERS, nothing of the stream after it, other streams complete, the peer's handles report origin remote / kind reset / the exact code. X3: error codes through RST_STREAM and GOAWAY encode -> bytes -> parse -> h2::Error::reason(). X2: the client model of C15 (one or two peer GOAWAYs with different codes and debug data) for the clause that a peer's GOAWAY surfaces on every affected handle with its exact code, origin and debug data"));
     out
 }
 
